@@ -176,6 +176,16 @@ def r15_2(ctx):
                     where=fn.where(), detail=f"three consecutive unitable pieces a,b,c (+ d) end as {names}, required ['abc', 'd']")
         else:
             out.ok(fn.qname, "three consecutive pieces a,b,c -> abc in one call", where=fn.where())
+        # a closed curve that is one segment once cleaned (a teardrop cut in two): the two pieces must be united
+        table1 = {("a", "b"): "ab"}
+        S1 = Obj("J", segments=(SegU("a", pa, pb, table1), SegU("b", pb, pa, table1)))
+        Runner(ctx, set(), None).call_fn(fn, [S1])
+        names = [s.name for s in S1.__dict__["segments"]]
+        if names != ["ab"]:
+            out.bad(fn.qname, "the two pieces of a closed curve made of one segment are not united", where=fn.where(),
+                    detail=f"pieces a, b end as {names}, required ['ab']")
+        else:
+            out.ok(fn.qname, "two pieces of a one-segment closed curve -> one segment", where=fn.where())
         # wrap-around pair
         table2 = {("d", "a"): "da"}
         segs = [SegU("a", pa, pb, table2), SegU("b", pb, pc, table2), SegU("d", pc, pa, table2)]
@@ -334,7 +344,10 @@ class Piece(StandIn):
         self.name = name
         self.ctrlpoints = tuple(P(f"{name}.{i}") for i in range(n))
 
-    def clean(self, *a):
+    def clean(self, *a, **k):
+        # what tolerance the piece is degree-reduced with (BezierCurve.clean does not look at the error when the
+        # tolerance is None -- or any other falsy value such as 0)
+        self.clean_calls = getattr(self, "clean_calls", []) + [a + tuple(k.values())]
         return self
 
     def __repr__(self):
@@ -372,6 +385,13 @@ def r15_5(ctx):
         out.bad(fn.qname, "pieces are not inserted / re-glued correctly", where=fn.where(), detail="; ".join(errs))
     else:
         out.ok(fn.qname, "s0,[p0,p1,p2],s2 in order, junctions shared, ends kept", where=fn.where())
+    unbounded = [(x.name, c) for x in pieces + [s0, s1, s2] for c in getattr(x, "clean_calls", []) if c and not c[0]]
+    if unbounded:
+        out.bad(fn.qname, "the pieces of a split are degree-reduced without an error bound (they are flattened to chords)",
+                where=fn.where(), detail=f"clean called with tolerance {unbounded[0][1][0]!r} on {unbounded[0][0]}: "
+                                         f"BezierCurve.clean skips the error test for a falsy tolerance")
+    else:
+        out.ok(fn.qname, "pieces are cleaned with the default tolerance only", where=fn.where())
     return out
 
 
